@@ -1,8 +1,17 @@
 (* C08 — reusing a knowledge-base instance behaves like using a fresh one (C08_statement in proofs/MemoTheorems.v). *)
-From Grule Require Import Base Values Syntax EngineAbs Facts Eval Refinement MemoTheorems.
+From Grule Require Import Base Values Syntax EngineAbs Facts Eval Frame FrameTheorems Refinement MemoTheorems.
 Theorem C08 : forall rules meth panics_inside mutating
   (meth_pure : forall fs f args ret fs', mutating f = false -> meth fs f args = Ok (ret, fs') -> fs' = fs),
   rules_ok rules mutating -> dependency_hypothesis rules meth mutating ->
   C08_statement rules meth panics_inside.
 Proof. exact C08_proved. Qed.
 Print Assumptions C08.
+
+(* for flat rule sets (proofs/Frame.v: fields of top-level facts, constants, negation, parentheses, binary operators;
+   assignments and control built-ins) both hypotheses are theorems *)
+Theorem C08_flat : forall meth panics_inside mutating
+  (meth_pure : forall fs f args ret fs', mutating f = false -> meth fs f args = Ok (ret, fs') -> fs' = fs)
+  rules, flat_rules rules = true ->
+  C08_statement rules meth panics_inside.
+Proof. exact FrameTheorems.C08_flat. Qed.
+Print Assumptions C08_flat.
